@@ -43,6 +43,7 @@ def generate(seed, tier="quick", prop=PROPERTY, logprobs=0.0, all_logprobs=0.1):
             d["orbit_from"] = [0, d["orbit_from"][1] % lib["n"]]
     nan_lib = sampling.add_nan_library(rnd, cfg, 0, p=0.12)
     sampling.add_neg_inf_profile(rnd, cfg, 0, p=0.15)
+    alt = sampling.add_alt_units_library(rnd, cfg, 0, p=0.25)
     N = lib["n"]
     ops = []
     for oid in range(rnd.randint(2, 4)):
@@ -51,10 +52,12 @@ def generate(seed, tier="quick", prop=PROPERTY, logprobs=0.0, all_logprobs=0.1):
         if nan_lib is not None and rnd.random() < 0.3:
             op["lib"] = nan_lib
         op.update(p)
+        if op["lib"] == 0:
+            sampling.use_alt_library(rnd, op, alt)
         op["kw"] = sampling.gen_rejection_kw(rnd, N, pname, logprobs=logprobs, all_logprobs=all_logprobs)
         sampling.add_arg_types(rnd, op)
         ops.append(op)
-    prog = {"format": 1, "property": prop, "seed": seed, "config": cfg, "ops": ops, "schedule": None, "faults": []}
+    prog = {"format": 1, "property": prop, "seed": seed, "config": cfg, "ops": ops, "schedule": None, "faults": [], "alt_lib": alt}
     sampling.add_concurrent(rnd, prog)
     sampling.add_failed_op(rnd, prog)
     return prog
